@@ -167,6 +167,11 @@ def prepare(tier, seed=1):
         p = run(["go", "build", "-o", os.path.join(bindir, "corr"), "."], cwd=gm, check=False)
         if p.returncode != 0:
             info["errors"].append("harness does not build: " + (p.stdout or "")[-3000:])
+        # 4b. the three targets, twice in fresh processes (C13)
+        for runname in ("A", "B"):
+            p = run([os.path.join(bindir, "gengram"), "-root", gm, "-phase", "targets", "-run", runname], cwd=wd, check=False)
+            if p.returncode != 0:
+                info["errors"].append("target run %s failed: %s" % (runname, (p.stdout or "")[-800:]))
         # 5. go/ssa facts about package-level writes (C20), over the library and every generated package
         run(["go", "build", "-o", os.path.join(bindir, "globals"), "./cmd/globals"], cwd=HARNESS)
         os.makedirs(os.path.join(gm, "extracted"), exist_ok=True)
